@@ -10,9 +10,13 @@ From Coq Require Import Permutation.
 (* The executable monitors (the property as a boolean over observed calls, outcomes and getter
    answers; reference state = the plain set / map implied by the calls so far) accept every run
    of the eight models, for every call sequence and every set of queries asked after every
-   call; and the diff of each model with itself is empty. *)
+   call (and Advance step); and the diff of each model with itself is empty.  [calls_wf]: every event
+   carries at least one query, and the two fixture headers are strictly increasing lists within the
+   capacity with BUCKET_SIZE > 0.  The third component is not about the property: it only reports
+   (class 9) that the limits printed in the trace header differ from the documented values. *)
 Theorem C20_monitor_accepts_model : forall k : calls,
-  calls_wf k = true -> check (observe_model k) = (0%N, 0%N, 0%N).
+  calls_wf k = true ->
+  check (observe_model k) = (0%N, 0%N, if limits_as_documented (observe_model k) then 0%N else 9%N).
 Proof. exact check_accepts_model. Qed.
 Print Assumptions C20_monitor_accepts_model.
 
@@ -33,7 +37,10 @@ Theorem C20_binder_refines :
 Proof. exact binder_refines. Qed.
 Print Assumptions C20_binder_refines.
 
-(* binding a bound token / unbinding an unbound one is refused, without effect *)
+(* binding a bound token / unbinding an unbound one is refused.  ("Without effect" is true of the model
+   by construction - step_state keeps the state of a refused call, the second conjunct below is its
+   definition; for the code it rests on the host's rollback of failed invocations and is CHECKED by
+   the correspondence run, which queries every getter again after every refused call.) *)
 Theorem C20_binder_dup_absent_refused :
   forall c : tb_cfg,
   (0 < tb_bs c)%nat ->
@@ -204,7 +211,8 @@ Theorem C20_two_way_consistent_keys_topics :
 Proof. exact keys_two_way_consistent. Qed.
 Print Assumptions C20_two_way_consistent_keys_topics.
 
-(* MAX_REGISTRIES_PER_KEY is enforced exactly at the limit (the fixed code) *)
+(* MAX_REGISTRIES_PER_KEY is enforced exactly at the limit (the fixed code) - counted, as the code does, on the
+   (claim topic, registry) PAIRS of the key, not on distinct registries: see Example C20_registries_per_key_counts_pairs *)
 Theorem C20_keys_registry_limit_exact :
   forall (c : ck_cfg) (cs : list ck_call) (pk sch reg t : N),
   let s := run (ck_step c) ck_init cs in
@@ -380,9 +388,129 @@ Theorem C20_sa_add_policy_iff :
 Proof. exact sa_add_policy_iff. Qed.
 Print Assumptions C20_sa_add_policy_iff.
 
+(* add_context_rule is accepted IFF there is room below MAX_CONTEXT_RULES (limit exact), signers and policies are
+   duplicate-free, valid_until is not in the past, the lists are within MAX_SIGNERS / MAX_POLICIES and not both empty,
+   no live rule has the same fingerprint, every policy installs, and the id space is not exhausted *)
+Theorem C20_sa_add_rule_iff :
+  forall (c : sa_cfg) (sl : sa_state * N) (now : N) (cx : ctxt) (name : N) (until : option N)
+    (sg : list signer) (po : list (N * bool)),
+  sa_reachable c sl ->
+  let s := fst sl in
+  is_ok (sa_step (sa_with_now c now) s (SaAddRule cx name until sg po)) = true <->
+  (sa_count0 s < sa_max_rules c)%nat /\
+  NoDup sg /\
+  NoDup (map fst po) /\
+  until_ok (sa_with_now c now) until = true /\
+  sa_validate c sg (map fst po) = true /\
+  (forall (id2 : N) (r2 : rule), sa_get_rule s id2 = Ok r2 -> same_fp cx sg (map fst po) r2 = false) /\
+  forallb snd po = true /\ (match sa_next s with
+                            | Some n => n
+                            | None => 0
+                            end < 4294967295)%N.
+Proof. exact sa_add_rule_iff. Qed.
+Print Assumptions C20_sa_add_rule_iff.
+
+(* remove_context_rule is accepted iff the rule exists (an absent rule is refused) *)
+Theorem C20_sa_remove_rule_iff :
+  forall (c : sa_cfg) (sl : sa_state * N) (now id : N),
+  sa_reachable c sl ->
+  is_ok (sa_step (sa_with_now c now) (fst sl) (SaRemoveRule id)) = is_ok (sa_get_rule (fst sl) id).
+Proof. exact sa_remove_rule_iff. Qed.
+Print Assumptions C20_sa_remove_rule_iff.
+
+(* update_context_rule_name is accepted iff the rule exists *)
+Theorem C20_sa_update_name_iff :
+  forall (c : sa_cfg) (sl : sa_state * N) (now id name : N),
+  sa_reachable c sl ->
+  is_ok (sa_step (sa_with_now c now) (fst sl) (SaUpdateName id name)) = is_ok (sa_get_rule (fst sl) id).
+Proof. exact sa_update_name_iff. Qed.
+Print Assumptions C20_sa_update_name_iff.
+
+(* update_context_rule_valid_until is accepted iff the rule exists and the new valid_until is not in the past *)
+Theorem C20_sa_update_until_iff :
+  forall (c : sa_cfg) (sl : sa_state * N) (now id : N) (until : option N),
+  sa_reachable c sl ->
+  is_ok (sa_step (sa_with_now c now) (fst sl) (SaUpdateUntil id until)) =
+  is_ok (sa_get_rule (fst sl) id) && until_ok (sa_with_now c now) until.
+Proof. exact sa_update_until_iff. Qed.
+Print Assumptions C20_sa_update_until_iff.
+
+(* remove_signer is accepted IFF the rule exists, holds the signer (an absent signer is refused), is not left without
+   any signer and policy, and no live rule already has the resulting fingerprint *)
+Theorem C20_sa_remove_signer_iff :
+  forall (c : sa_cfg) (sl : sa_state * N) (now id : N) (x : signer),
+  sa_reachable c sl ->
+  let s := fst sl in
+  is_ok (sa_step (sa_with_now c now) s (SaRemoveSigner id x)) = true <->
+  (exists r : rule,
+     sa_get_rule s id = Ok r /\
+     In x (r_signers r) /\
+     (rem signer_eqb x (r_signers r) <> [] \/ r_policies r <> []) /\
+     (forall (id2 : N) (r2 : rule),
+      sa_get_rule s id2 = Ok r2 ->
+      same_fp (r_ctx r) (rem signer_eqb x (r_signers r)) (r_policies r) r2 = false)).
+Proof. exact sa_remove_signer_iff. Qed.
+Print Assumptions C20_sa_remove_signer_iff.
+
+(* remove_policy: likewise *)
+Theorem C20_sa_remove_policy_iff :
+  forall (c : sa_cfg) (sl : sa_state * N) (now id p : N),
+  sa_reachable c sl ->
+  let s := fst sl in
+  is_ok (sa_step (sa_with_now c now) s (SaRemovePolicy id p)) = true <->
+  (exists r : rule,
+     sa_get_rule s id = Ok r /\
+     In p (r_policies r) /\
+     (r_signers r <> [] \/ rem N.eqb p (r_policies r) <> []) /\
+     (forall (id2 : N) (r2 : rule),
+      sa_get_rule s id2 = Ok r2 ->
+      same_fp (r_ctx r) (r_signers r) (rem N.eqb p (r_policies r)) r2 = false)).
+Proof. exact sa_remove_policy_iff. Qed.
+Print Assumptions C20_sa_remove_policy_iff.
+
+(* identity registry: country data is valid iff it has at most MAX_METADATA_ENTRIES metadata entries, each value of at
+   most MAX_METADATA_STRING_LEN bytes *)
+Theorem C20_irs_metadata_limits :
+  forall (c : irs_cfg) (d : cdata),
+  cd_valid c d = true <->
+  match cd_meta d with
+  | Some m =>
+      (N.of_nat (length m) <= irs_max_meta c)%N /\
+      (forall kv : N * N, In kv m -> (str_len (snd kv) <= irs_max_meta_len c)%N)
+  | None => True
+  end.
+Proof. exact irs_cd_valid_iff. Qed.
+Print Assumptions C20_irs_metadata_limits.
+
+(* add_identity is accepted IFF the account was never recovered, holds no identity, and the country list is non-empty,
+   of at most MAX_COUNTRY_ENTRIES entries (limit exact), all valid *)
+Theorem C20_irs_add_identity_iff :
+  forall (c : irs_cfg) (s : irs_state) (acct ident ty : N) (cds : list cdata),
+  is_ok (irs_step c s (IrAdd acct ident ty cds)) = true <->
+  irs_recovered_to s acct = None /\
+  cds <> [] /\
+  (length cds <= irs_max_countries c)%nat /\
+  (forall d : cdata, In d cds -> cd_valid c d = true) /\ irs_stored_identity s acct = Fail.
+Proof. exact irs_add_identity_iff. Qed.
+Print Assumptions C20_irs_add_identity_iff.
+
+(* add_country_data_entries is accepted IFF the list is non-empty and valid, the account has a profile, and the total stays
+   within MAX_COUNTRY_ENTRIES (limit exact) *)
+Theorem C20_irs_add_countries_iff :
+  forall (c : irs_cfg) (s : irs_state) (acct : N) (cds : list cdata),
+  is_ok (irs_step c s (IrAddCountries acct cds)) = true <->
+  cds <> [] /\
+  (forall d : cdata, In d cds -> cd_valid c d = true) /\
+  (exists p : N * list cdata,
+     irs_get_profile s acct = Ok p /\ (length (snd p) + length cds <= irs_max_countries c)%nat).
+Proof. exact irs_add_countries_iff. Qed.
+Print Assumptions C20_irs_add_countries_iff.
+
 (* persistence (model level): ledger gaps change nothing. For every model whose step does not read the
    ledger (all registries but the smart account, whose theorems above are stated over histories WITH gaps),
-   the state after any history of calls and Advance steps is the state after its calls alone; the monitors
+   the state after any history of calls and Advance steps is the state after its calls alone.  (This holds by
+   construction of the lifting - the model simply has no notion of expiry; that the CODE keeps its state
+   across gaps is what the correspondence run observes, see props/C20.json.)  The monitors
    (C20_monitor_accepts_model) require every answer after an Advance to be that of the unchanged reference *)
 Theorem C20_ledger_gaps_change_nothing :
   forall (St C O : Type) (step : St -> C -> res (St * O)) (dflt : O) (cs : list (tcall C)) (sl : St * N),
@@ -390,15 +518,17 @@ Theorem C20_ledger_gaps_change_nothing :
 Proof. exact @ledger_gaps_change_nothing. Qed.
 Print Assumptions C20_ledger_gaps_change_nothing.
 
+
 (* ------------------------------------------------------------------------- *)
 (* Examples: the monitors are not vacuous - each rejects a hand-made trace that  *)
-(* violates the property (the number is the 1-based index of the offending call) *)
+(* violates the property (the number is the 1-based index of the offending event) *)
 (* ------------------------------------------------------------------------- *)
 Open Scope N_scope.
+Definition d1 := Build_doc 1 3 7 1000.
 
 (* a duplicate bind is accepted *)
 Example C20_monitor_rejects_duplicate_bind :
-  monitor (TrBinder 100 10000 [] [(Call (TbBind 1), Ok tt, []); (Call (TbBind 1), Ok tt, [])]) = 2.
+  monitor (TrBinder 100 10000 [] [(Call (TbBind 1), Ok tt, [(TqCount, TaNat 1)]); (Call (TbBind 1), Ok tt, [(TqCount, TaNat 1)])]) = 2.
 Proof. vm_compute. reflexivity. Qed.
 (* index-based access returns the same token at two indexes *)
 Example C20_monitor_rejects_double_enumeration :
@@ -410,41 +540,42 @@ Example C20_monitor_rejects_lost_element :
   monitor (TrBinder 100 10000 [] [(Call (TbBindMany [1; 2; 3]), Ok tt, [(TqLinked, TaList [1; 2; 3])]);
                                    (Call (TbUnbind 1), Ok tt, [(TqLinked, TaList [2])])]) = 2.
 Proof. vm_compute. reflexivity. Qed.
-(* refusal below the capacity limit *)
+(* refusal below the capacity limit / acceptance past it *)
 Example C20_monitor_rejects_early_refusal :
-  monitor (TrBinder 100 3 [] [(Call (TbBindMany [1; 2]), Ok tt, []); (Call (TbBind 3), Fail, [])]) = 2.
+  monitor (TrBinder 100 3 [] [(Call (TbBindMany [1; 2]), Ok tt, [(TqCount, TaNat 2)]); (Call (TbBind 3), Fail, [(TqCount, TaNat 2)])]) = 2.
 Proof. vm_compute. reflexivity. Qed.
-(* acceptance past the capacity limit *)
 Example C20_monitor_rejects_over_capacity :
-  monitor (TrBinder 100 2 [] [(Call (TbBindMany [1; 2]), Ok tt, []); (Call (TbBind 3), Ok tt, [])]) = 2.
+  monitor (TrBinder 100 2 [] [(Call (TbBindMany [1; 2]), Ok tt, [(TqCount, TaNat 2)]); (Call (TbBind 3), Ok tt, [(TqCount, TaNat 3)])]) = 2.
 Proof. vm_compute. reflexivity. Qed.
 (* a removed document is still returned *)
 Example C20_monitor_rejects_stale_document :
-  monitor (TrDocs 50 5000 200 [] [(Call (DmSet 1 (Build_doc 1 3 7 1000)), Ok tt, []);
-                                  (Call (DmRemove 1), Ok tt, [(DqGet 1, DaDoc (Ok (Build_doc 1 3 7 1000)))])]) = 2.
+  monitor (TrDocs 50 5000 200 [] [(Call (DmSet 1 d1), Ok tt, [(DqCount, DaNat 1)]);
+                                  (Call (DmRemove 1), Ok tt, [(DqGet 1, DaDoc (Ok d1))])]) = 2.
 Proof. vm_compute. reflexivity. Qed.
 (* the two directions of the topic / issuer relation disagree *)
 Example C20_monitor_rejects_one_way_relation :
-  monitor (TrCTI 15 50 [(Call (CtAddTopic 1), Ok tt, []);
+  monitor (TrCTI 15 50 [(Call (CtAddTopic 1), Ok tt, [(CqTopics, CaList [1])]);
                         (Call (CtAddIssuer 0 [1]), Ok tt, [(CqIssuerTopics 0, CaRList (Ok [1])); (CqTopicIssuers 1, CaRList (Ok []))])]) = 2.
 Proof. vm_compute. reflexivity. Qed.
 (* the pre-fix behaviour of defect F5: with limit 2, the second pair of a key is refused *)
 Example C20_monitor_rejects_F5 :
-  monitor (TrKeys 50 2 [(Call (CkAllow 1 0 101 1 (Ok true)), Ok tt, []); (Call (CkAllow 1 1 101 1 (Ok true)), Fail, [])]) = 2.
+  monitor (TrKeys 50 2 [(Call (CkAllow 1 0 101 1 (Ok true)), Ok tt, [(KqRegistries (1, 101), KaRegs (Ok [0]))]);
+                        (Call (CkAllow 1 1 101 1 (Ok true)), Fail, [(KqRegistries (1, 101), KaRegs (Ok [0]))])]) = 2.
 Proof. vm_compute. reflexivity. Qed.
 (* ... and it rejects the trace of the PRE-FIX MODEL itself with the real limits (call 20 of 20) *)
 Example C20_monitor_rejects_prefix_model :
   monitor (TrKeys 50 20 (model_trace (lstep (fun _ : N => ck_step_prefix f5_cfg) tt) (lans ck_answer) (ck_init, 0)
-             (map (fun k => (Call k, [])) (f5_history ++ [CkAllow 7 4 101 3 (Ok true)])))) = 20.
+             (map (fun k => (Call k, [KqRegistries (7, 101)])) (f5_history ++ [CkAllow 7 4 101 3 (Ok true)])))) = 20.
 Proof. vm_compute. reflexivity. Qed.
 (* a recovered account is registered again *)
 Example C20_monitor_rejects_reregistration :
-  monitor (TrIRS 15 10 100 [(Call (IrAdd 0 9 0 [Build_cdata 1 None]), Ok tt, []); (Call (IrRecover 0 1), Ok tt, []);
-                            (Call (IrAdd 0 9 0 [Build_cdata 1 None]), Ok tt, [])]) = 3.
+  monitor (TrIRS 15 10 100 [(Call (IrAdd 0 9 0 [Build_cdata 1 None]), Ok tt, [(IqIdentity 0, IaAddr (Ok 9))]);
+                            (Call (IrRecover 0 1), Ok tt, [(IqRecovered 0, IaOpt (Some 1))]);
+                            (Call (IrAdd 0 9 0 [Build_cdata 1 None]), Ok tt, [(IqIdentity 0, IaAddr (Ok 9))])]) = 3.
 Proof. vm_compute. reflexivity. Qed.
 (* a module registered twice for one hook *)
 Example C20_monitor_rejects_duplicate_module :
-  monitor (TrCM 20 [(Call (CmAdd 0 1), Ok tt, []); (Call (CmAdd 0 1), Ok tt, [])]) = 2.
+  monitor (TrCM 20 [(Call (CmAdd 0 1), Ok tt, [(MqModules 0, MaList [1])]); (Call (CmAdd 0 1), Ok tt, [(MqIsRegistered 0 1, MaBool true)])]) = 2.
 Proof. vm_compute. reflexivity. Qed.
 (* the topic index lists a claim twice *)
 Example C20_monitor_rejects_double_index :
@@ -453,25 +584,31 @@ Proof. vm_compute. reflexivity. Qed.
 (* a rule id is reused after a removal *)
 Example C20_monitor_rejects_reused_id :
   monitor (TrSA 15 15 5 100
-    [(Call (SaAddRule CDefault 0 None [Delegated 0] []), Ok (Some (Build_rule 0 CDefault 0 [Delegated 0] [] None)), []);
-     (Call (SaRemoveRule 0), Ok None, []);
-     (Call (SaAddRule CDefault 0 None [Delegated 1] []), Ok (Some (Build_rule 0 CDefault 0 [Delegated 1] [] None)), [])]) = 3.
+    [(Call (SaAddRule CDefault 0 None [Delegated 0] []), Ok (Some (Build_rule 0 CDefault 0 [Delegated 0] [] None)), [(SqCount, SaNat 1)]);
+     (Call (SaRemoveRule 0), Ok None, [(SqCount, SaNat 0)]);
+     (Call (SaAddRule CDefault 0 None [Delegated 1] []), Ok (Some (Build_rule 0 CDefault 0 [Delegated 1] [] None)), [(SqCount, SaNat 1)])]) = 3.
 Proof. vm_compute. reflexivity. Qed.
 (* a rule with the same fingerprint (same signer SET, other order) is accepted twice *)
 Example C20_monitor_rejects_duplicate_fingerprint :
   monitor (TrSA 15 15 5 100
-    [(Call (SaAddRule CDefault 0 None [Delegated 0; Delegated 1] []), Ok (Some (Build_rule 0 CDefault 0 [Delegated 0; Delegated 1] [] None)), []);
-     (Call (SaAddRule CDefault 1 None [Delegated 1; Delegated 0] []), Ok (Some (Build_rule 1 CDefault 1 [Delegated 1; Delegated 0] [] None)), [])]) = 2.
+    [(Call (SaAddRule CDefault 0 None [Delegated 0; Delegated 1] []), Ok (Some (Build_rule 0 CDefault 0 [Delegated 0; Delegated 1] [] None)), [(SqCount, SaNat 1)]);
+     (Call (SaAddRule CDefault 1 None [Delegated 1; Delegated 0] []), Ok (Some (Build_rule 1 CDefault 1 [Delegated 1; Delegated 0] [] None)), [(SqCount, SaNat 2)])]) = 2.
+Proof. vm_compute. reflexivity. Qed.
+(* ... while the same signers under another context type are a different fingerprint: refusing it is the violation *)
+Example C20_monitor_rejects_refusal_of_other_context :
+  monitor (TrSA 15 15 5 100
+    [(Call (SaAddRule CDefault 0 None [Delegated 0] []), Ok (Some (Build_rule 0 CDefault 0 [Delegated 0] [] None)), [(SqCount, SaNat 1)]);
+     (Call (SaAddRule (CCall 5) 0 None [Delegated 0] []), Fail, [(SqCount, SaNat 1)])]) = 2.
 Proof. vm_compute. reflexivity. Qed.
 
-(* persistence: state that lapses while nothing is called is a violation - a bound token gone after a
-   ledger gap, a recovery link gone, a rule gone (count unchanged), a getter that traps *)
+(* persistence: state that lapses while nothing is called is a violation *)
 Example C20_monitor_rejects_lapsed_token :
   monitor (TrBinder 100 10000 [] [(Call (TbBind 1), Ok tt, [(TqIsBound 1, TaBool true)]);
                                    (Advance 600000, Ok tt, [(TqIsBound 1, TaBool false)])]) = 2.
 Proof. vm_compute. reflexivity. Qed.
 Example C20_monitor_rejects_lapsed_link :
-  monitor (TrIRS 15 10 100 [(Call (IrAdd 0 9 0 [Build_cdata 1 None]), Ok tt, []); (Call (IrRecover 0 1), Ok tt, [(IqRecovered 0, IaOpt (Some 1))]);
+  monitor (TrIRS 15 10 100 [(Call (IrAdd 0 9 0 [Build_cdata 1 None]), Ok tt, [(IqIdentity 0, IaAddr (Ok 9))]);
+                            (Call (IrRecover 0 1), Ok tt, [(IqRecovered 0, IaOpt (Some 1))]);
                             (Advance 4000000, Ok tt, [(IqRecovered 0, IaOpt None)])]) = 3.
 Proof. vm_compute. reflexivity. Qed.
 Example C20_monitor_rejects_lapsed_rule :
@@ -485,16 +622,146 @@ Proof. vm_compute. reflexivity. Qed.
 (* ... while a valid_until that passes during a gap is NOT a lapse: the ledger is part of the reference *)
 Example C20_monitor_tracks_ledger :
   monitor (TrSA 15 15 5 100
-    [(Advance 50, Ok None, []);
-     (Call (SaAddRule CDefault 0 (Some 120) [Delegated 0] []), Fail, []);
-     (Call (SaAddRule CDefault 0 (Some 150) [Delegated 0] []), Ok (Some (Build_rule 0 CDefault 0 [Delegated 0] [] (Some 150))), [])]) = 0.
+    [(Advance 50, Ok None, [(SqCount, SaNat 0)]);
+     (Call (SaAddRule CDefault 0 (Some 120) [Delegated 0] []), Fail, [(SqCount, SaNat 0)]);
+     (Call (SaAddRule CDefault 0 (Some 150) [Delegated 0] []), Ok (Some (Build_rule 0 CDefault 0 [Delegated 0] [] (Some 150))), [(SqCount, SaNat 1)])]) = 0.
 Proof. vm_compute. reflexivity. Qed.
 
-(* non-vacuity: the hypotheses of the theorems are met on non-trivial reachable states, e.g. a
-   binder history that crosses a bucket boundary (bucket size 2) and removes the element that
-   was just swapped in *)
+(* ---- the traces of the adversarial review (.cache/review/C20.md section 2a), now rejected ---- *)
+(* H2: a bucket read must hold exactly its page, whichever buckets are read, in any order, repeated or not *)
+Example C20_review_H2_bucket_missing_its_page :
+  monitor (TrDocs 2 5000 200 [] [(Call (DmSet 1 d1), Ok tt, [(DqCount, DaNat 1)]); (Call (DmSet 2 d1), Ok tt, [(DqCount, DaNat 2)]);
+     (Call (DmSet 3 d1), Ok tt, [(DqCount, DaNat 3); (DqBucket 1, DaList [])])]) = 3.
+Proof. vm_compute. reflexivity. Qed.
+Example C20_review_H2_bucket_read_twice :
+  monitor (TrDocs 50 5000 200 [] [(Call (DmSet 1 d1), Ok tt, [(DqCount, DaNat 1)]); (Call (DmSet 2 d1), Ok tt,
+     [(DqCount, DaNat 2); (DqBucket 0, DaList []); (DqBucket 0, DaList [])])]) = 2.
+Proof. vm_compute. reflexivity. Qed.
+Example C20_review_H2_document_in_two_buckets :
+  monitor (TrDocs 1 5000 200 [] [(Call (DmSet 1 d1), Ok tt, [(DqCount, DaNat 1)]); (Call (DmSet 2 d1), Ok tt, [(DqCount, DaNat 2)]);
+     (Call (DmSet 3 d1), Ok tt, [(DqBucket 0, DaList [(1, d1)]); (DqBucket 1, DaList [(1, d1)])])]) = 3.
+Proof. vm_compute. reflexivity. Qed.
+Example C20_review_H2_bucket_disagrees_with_by_index :
+  monitor (TrDocs 2 5000 200 [] [(Call (DmSet 1 d1), Ok tt, [(DqCount, DaNat 1)]);
+     (Call (DmSet 2 d1), Ok tt, [(DqByIndex 0, DaEntry (Ok (1, d1))); (DqBucket 0, DaList [(2, d1); (1, d1)])])]) = 2.
+Proof. vm_compute. reflexivity. Qed.
+(* H3: the enumeration order must not change during a call-free ledger gap (nor across a refused call) *)
+Example C20_review_H3_reindexed_during_gap :
+  monitor (TrBinder 100 10000 []
+    [(Call (TbBindMany [1; 2]), Ok tt, [(TqByIndex 0, TaAddr (Ok 1)); (TqByIndex 1, TaAddr (Ok 2)); (TqIndexOf 1, TaIdx (Ok 0))]);
+     (Advance 20, Ok tt, [(TqByIndex 0, TaAddr (Ok 2)); (TqByIndex 1, TaAddr (Ok 1)); (TqIndexOf 1, TaIdx (Ok 1)); (TqLinked, TaList [2; 1])])]) = 2.
+Proof. vm_compute. reflexivity. Qed.
+Example C20_review_H3_reindexed_by_refused_call :
+  monitor (TrDocs 50 5000 200 []
+    [(Call (DmSet 1 d1), Ok tt, [(DqCount, DaNat 1)]);
+     (Call (DmSet 2 d1), Ok tt, [(DqByIndex 0, DaEntry (Ok (1, d1)))]);
+     (Call (DmRemove 9), Fail, [(DqByIndex 1, DaEntry (Ok (1, d1)))])]) = 3.
+Proof. vm_compute. reflexivity. Qed.
+(* H4: a refusal "because the id space is exhausted" needs 2^32 - 1 rules to have been added *)
+Example C20_review_H4_refusal_after_a_huge_id :
+  monitor (TrSA 15 15 5 100
+    [(Call (SaAddRule CDefault 0 None [Delegated 0] []), Ok (Some (Build_rule 4294967294 CDefault 0 [Delegated 0] [] None)), [(SqCount, SaNat 1)]);
+     (Call (SaAddRule CDefault 0 None [Delegated 1] []), Fail, [(SqCount, SaNat 1)])]) = 2.
+Proof. vm_compute. reflexivity. Qed.
+(* H5: an event without any observation proves nothing and is not accepted *)
+Example C20_review_H5_empty_observation :
+  monitor (TrCM 20 [(Call (CmAdd 0 1), Ok tt, [])]) = 1.
+Proof. vm_compute. reflexivity. Qed.
+
+(* ---- documented deviations / interpretations (not violations; see props/C20.json level_note) ---- *)
+(* H1: MAX_REGISTRIES_PER_KEY ("maximum number of registries allowed per signing key") is enforced by the
+   code - and hence by model, reference machine and monitor - on the number of (topic, registry) PAIRS of the
+   key, and get_registries answers one entry per pair.  With the documented limit 20: a key allowed for ONE
+   registry under 20 topics is refused a second registry, and get_registries lists that registry 20 times. *)
+Definition one_registry_20_topics : list ck_call :=
+  map (fun t => CkAllow 7 0 101 (N.of_nat t) (Ok true)) (seq 1 20).
+Example C20_registries_per_key_counts_pairs :
+  let s := run (ck_step f5_cfg) ck_init one_registry_20_topics in
+  ck_registries s (7, 101) = Ok (repeat 0 20)
+  /\ is_ok (ck_step f5_cfg s (CkAllow 7 1 101 1 (Ok true))) = false
+  /\ monitor (TrKeys 50 20 (model_trace (ck_lstep f5_cfg) (lans ck_answer) (ck_init, 0)
+               (map (fun k => (Call k, [KqRegistries (7, 101)])) (one_registry_20_topics ++ [CkAllow 7 1 101 1 (Ok true)])))) = 0.
+Proof. vm_compute. repeat split. Qed.
+(* H6: remove_claim_topic may leave a trusted issuer with an EMPTY topic list although add / update refuse
+   empty lists (code behaviour, accepted by the reference machine; the property text does not speak about it) *)
+Example C20_issuer_may_be_left_without_topics :
+  monitor (TrCTI 15 50 [(Call (CtAddTopic 1), Ok tt, [(CqTopics, CaList [1])]);
+                        (Call (CtAddIssuer 0 [1]), Ok tt, [(CqIssuerTopics 0, CaRList (Ok [1]))]);
+                        (Call (CtRemoveTopic 1), Ok tt, [(CqIssuerTopics 0, CaRList (Ok [])); (CqIsTrusted 0, CaBool true)])]) = 0.
+Proof. vm_compute. reflexivity. Qed.
+
+(* ---- the documented values of the limits (pinned tree): a trace whose header carries other values is
+   evaluated with those values and reported as class 9, not as a violation ---- *)
+Example C20_documented_limits :
+  limits_as_documented (TrBinder 100 10000 [] []) = true /\ limits_as_documented (TrDocs 50 5000 200 [] []) = true
+  /\ limits_as_documented (TrCTI 15 50 []) = true /\ limits_as_documented (TrKeys 50 20 []) = true
+  /\ limits_as_documented (TrIRS 15 10 100 []) = true /\ limits_as_documented (TrCM 20 []) = true
+  /\ limits_as_documented (TrSA 15 15 5 100 []) = true
+  /\ check (TrKeys 50 19 [(Call (CkAllow 1 0 101 1 (Ok true)), Ok tt, [(KqRegistries (1, 101), KaRegs (Ok [0]))])]) = (0, 0, 9).
+Proof. vm_compute. repeat split. Qed.
+
+(* ---- non-vacuity: the hypotheses of the conditional theorems are met on non-trivial reachable states ---- *)
 Example C20_nonvacuous_binder :
   let c := {| tb_bs := 2; tb_max := 5 |} in
   let s := run (tb_step c) tb_init [TbBindMany [1; 2; 3]; TbUnbind 1; TbUnbind 3; TbBind 4; TbBind 5] in
-  tb_linked c s = [2; 4; 5] /\ tb_buckets s = [(1%nat, [5]); (0%nat, [2; 4])] /\ tb_by_index c s 2 = Ok 5.
+  tb_linked c s = [2; 4; 5] /\ tb_buckets s = [(1%nat, [5]); (0%nat, [2; 4])] /\ tb_by_index c s 2 = Ok 5
+  /\ tb_is_bound c s 1 = false /\ is_ok (tb_step c s (TbBind 1)) = true /\ is_ok (tb_step c s (TbBindMany [1; 3; 6])) = false.
+Proof. vm_compute. repeat split. Qed.
+Example C20_nonvacuous_docs :
+  let c := {| dm_bs := 2; dm_max := 3; dm_max_uri := 200 |} in
+  let s := run (dm_step c) dm_init [DmSet 1 d1; DmSet 2 d1; DmSet 3 d1; DmRemove 1] in
+  dm_count s = 2%nat /\ dm_by_index c s 0 = Ok (3, d1) /\ dm_get c s 1 = Fail
+  /\ is_ok (dm_step c s (DmSet 4 d1)) = true /\ is_ok (dm_step c (run (dm_step c) s [DmSet 4 d1]) (DmSet 5 d1)) = false
+  /\ is_ok (dm_step c (run (dm_step c) s [DmSet 4 d1]) (DmSet 2 d1)) = true.
+Proof. vm_compute. repeat split. Qed.
+Example C20_nonvacuous_compliance :
+  let c := {| cm_max := 2 |} in
+  let s := run (cm_step c) cm_init [CmAdd 0 1; CmAdd 0 2; CmAdd 1 1; CmRemove 0 1] in
+  cm_modules s 0 = [2] /\ cm_is_registered s 0 1 = false /\ is_ok (cm_step c s (CmAdd 0 1)) = true
+  /\ is_ok (cm_step c (run (cm_step c) s [CmAdd 0 1]) (CmAdd 0 3)) = false.
+Proof. vm_compute. repeat split. Qed.
+Example C20_nonvacuous_cti :
+  let c := {| cti_max_topics := 2; cti_max_issuers := 1 |} in
+  let s := run (cti_step c) cti_init [CtAddTopic 1; CtAddTopic 2; CtAddIssuer 7 [2; 1]; CtUpdateIssuer 7 [1]] in
+  cti_get_topic_issuers s 1 = Ok [7] /\ cti_get_topic_issuers s 2 = Ok [] /\ cti_get_issuer_topics s 7 = Ok [1]
+  /\ cti_valid c (spec_run (cti_spec c) cti_ref0 [CtAddTopic 1; CtAddTopic 2; CtAddIssuer 7 [2; 1]; CtUpdateIssuer 7 [1]]) [2] = true
+  /\ is_ok (cti_step c s (CtAddIssuer 8 [2])) = false /\ is_ok (cti_step c s (CtAddTopic 3)) = false.
+Proof. vm_compute. repeat split. Qed.
+Example C20_nonvacuous_keys :
+  let c := {| ck_max_keys := 1; ck_max_regs := 2 |} in
+  let s := run (ck_step c) ck_init [CkAllow 7 0 101 1 (Ok true)] in
+  ck_allowed_for_topic s (7, 101) 1 = true /\ ck_allowed_for_registry s (7, 101) 1 = false
+  /\ is_ok (ck_step c s (CkAllow 7 1 101 1 (Ok true))) = true                      (* second pair of the key: room *)
+  /\ is_ok (ck_step c (run (ck_step c) s [CkAllow 7 1 101 1 (Ok true)]) (CkAllow 7 2 101 1 (Ok true))) = false   (* third: at the limit *)
+  /\ ck_allowed_for_topic s (8, 101) 1 = false /\ is_ok (ck_step c s (CkAllow 8 0 101 1 (Ok true))) = false.     (* keys-per-topic limit 1 *)
+Proof. vm_compute. repeat split. Qed.
+Example C20_nonvacuous_irs :
+  let c := {| irs_max_countries := 2; irs_max_meta := 1; irs_max_meta_len := 3 |} in
+  let s := run (irs_step c) irs_init [IrAdd 0 9 0 [Build_cdata 1 None]; IrRecover 0 1] in
+  irs_recovered_to s 0 = Some 1 /\ irs_stored_identity s 1 = Ok 9 /\ irs_stored_identity s 0 = Fail
+  /\ is_ok (irs_step c s (IrAdd 0 9 0 [Build_cdata 1 None])) = false
+  /\ is_ok (irs_step c s (IrAddCountries 1 [Build_cdata 2 (Some [(1, 16777216)])])) = true       (* value of 3 bytes *)
+  /\ is_ok (irs_step c s (IrAddCountries 1 [Build_cdata 2 (Some [(1, 4294967296)])])) = false    (* value of 4 bytes *)
+  /\ is_ok (irs_step c s (IrAddCountries 1 [Build_cdata 2 None; Build_cdata 3 None])) = false.   (* 3 > MAX_COUNTRY_ENTRIES *)
+Proof. vm_compute. repeat split. Qed.
+Example C20_nonvacuous_claims :
+  let s := run ic_step ic_init [IcAdd (Build_claim 1 101 0 1 1 1) true; IcAdd (Build_claim 1 101 5 1 1 1) true;
+                                IcAdd (Build_claim 1 102 0 2 2 2) true; IcRemove (5, 1)] in
+  ic_ids_by_topic s 1 = [(0, 1)] /\ ic_get_claim s (0, 1) = Ok (Build_claim 1 102 0 2 2 2) /\ ic_get_claim s (5, 1) = Fail.
+Proof. vm_compute. repeat split. Qed.
+Example C20_nonvacuous_smart_account :
+  let c := {| sa_max_rules := 3; sa_max_signers := 2; sa_max_policies := 1; sa_now := 100 |} in
+  let sl := run (sa_lstep c) (sa_init, 100)
+              [Call (SaAddRule CDefault 0 None [Delegated 0; Delegated 1] []); Advance 600000;
+               Call (SaAddRule CDefault 0 None [Delegated 0] []); Call (SaRemoveRule 0);
+               Call (SaAddRule (CCall 5) 0 (Some 600200) [Delegated 0] [(3, true)])] in
+  sa_count0 (fst sl) = 2%nat /\ snd sl = 600100
+  /\ sa_get_rule (fst sl) 2 = Ok (Build_rule 2 (CCall 5) 0 [Delegated 0] [3] (Some 600200))
+  /\ is_ok (sa_step (sa_with_now c (snd sl)) (fst sl) (SaAddSigner 1 (Delegated 1))) = true          (* room, new, no collision *)
+  /\ is_ok (sa_step (sa_with_now c (snd sl)) (fst sl) (SaAddSigner 1 (Delegated 0))) = false         (* duplicate signer *)
+  /\ is_ok (sa_step (sa_with_now c (snd sl)) (fst sl) (SaAddPolicy 2 4 true)) = false                (* MAX_POLICIES = 1 reached *)
+  /\ is_ok (sa_step (sa_with_now c (snd sl)) (fst sl) (SaRemovePolicy 2 3)) = true
+  /\ is_ok (sa_step (sa_with_now c (snd sl)) (fst sl) (SaRemoveSigner 1 (Delegated 0))) = false      (* would leave no signer, no policy *)
+  /\ is_ok (sa_step (sa_with_now c (snd sl)) (fst sl) (SaAddRule CDefault 0 None [Delegated 0] [])) = false   (* duplicate fingerprint of rule 1 *)
+  /\ is_ok (sa_step (sa_with_now c (snd sl)) (fst sl) (SaAddRule CDefault 0 None [Delegated 1] [])) = true.
 Proof. vm_compute. repeat split. Qed.
